@@ -23,7 +23,7 @@ TECHNIQUE = 'symbolic execution of BGP.dataReceived with symbolic message bodies
 EXPLANATION = 'C10: symbolic hostile bodies through dataReceived in each session state, containment oracle.'
 BOUNDS = 'body <= 8 octets of which <= 6 symbolic; attribute type codes enumerated (24); states OpenSent/OpenConfirm/Established'
 ASSUMPTIONS = ['Twisted contract as modelled', 'error-report text (repr of raw bytes) is cut by the engine extension; raw bytes themselves are compared in replay']
-BUDGET = {'quick': 330, 'thorough': 1800}
+BUDGET = {'quick': 330, 'thorough': 3600}
 
 ATTR_CODES = [1, 2, 3, 4, 5, 6, 7, 8, 9, 10, 14, 15, 16, 17, 18, 22, 23, 29, 32, 40, 99, 255]
 
